@@ -37,7 +37,8 @@ var redirect = map[string]map[string]string{
 		// pure helpers and types
 		"UDPAddr": "", "TCPAddr": "", "IP": "", "IPv4": "", "IPv4len": "", "IPv4bcast": "", "IPv4zero": "", "IPNet": "", "IPMask": "",
 		"UDPAddrFromAddrPort": "", "TCPAddrFromAddrPort": "", "ParseIP": "", "HardwareAddr": "", "Addr": "", "Error": "", "OpError": "",
-		"Interfaces": "", "FlagLoopback": "", "FlagUp": "", "JoinHostPort": "", "SplitHostPort": "", "ErrClosed": "",
+		"Interfaces": "Interfaces", "InterfaceAddrs": "InterfaceAddrs", "InterfaceByName": "InterfaceByName", "InterfaceByIndex": "InterfaceByIndex", "Interface": "Interface",
+		"Flags": "", "FlagBroadcast": "", "FlagMulticast": "", "FlagPointToPoint": "", "FlagRunning": "", "FlagLoopback": "", "FlagUp": "", "JoinHostPort": "", "SplitHostPort": "", "ErrClosed": "",
 		"ParseMAC": "", "ParseCIDR": "", "IPv4Mask": "", "CIDRMask": "", "IPv6len": "", "IPv6zero": "", "IPv6unspecified": "", "IPv6loopback": "", "AddrError": "", "ParseError": "", "InvalidAddrError": "",
 	},
 	"time": {
